@@ -657,5 +657,71 @@ translator_T1.__name__ = "T1_serde_schema"
 if __name__ == "__main__":
     print(translator_T1())
 
-CLAIMED = False
-REASON = "under construction"
+
+# ------------------------------------------------------------------------------------------------
+# check configuration
+
+
+def c11_compare(case, verdict):
+    impl = case.get("impl")
+    model = verdict.get("model")
+    oracle = verdict.get("oracle", {})
+    bad = sorted(k for k, v in oracle.items() if v is False)
+    if isinstance(impl, dict) and "panic" in impl:
+        return {"agree": False, "holds": False, "detail": "implementation panicked: " + str(impl["panic"])[:300]}
+    if isinstance(impl, dict) and "error" in impl:
+        return {"agree": False, "holds": None, "detail": "harness error: " + str(impl["error"])[:300]}
+    k = case.get("k")
+    if k == "fbits":
+        # arbitrary float bit patterns: f64 text printing/parsing is out of model; only acceptance is compared,
+        # the 1-ulp oracle is evaluated on the real output
+        agree = isinstance(impl, dict) and isinstance(model, dict) and impl.get("ok") == model.get("ok")
+    else:
+        # value_ok (parse(ser d) == d through the derived Debug rendering) exists on the real side only
+        agree = {k_: v_ for k_, v_ in impl.items() if k_ != "value_ok"} == model if isinstance(impl, dict) else impl == model
+    detail = ""
+    if not agree:
+        detail = "model and implementation differ"
+    if bad:
+        detail = "oracle failed: " + ",".join(bad)
+    return {"agree": agree, "holds": (not bad), "detail": detail}
+
+
+def c11_nontrivial(case, v):
+    k = case.get("k")
+    if k in ("rt", "fbits", "foreign"):
+        txt = json.dumps(case.get("doc"))
+        if case.get("root") == "Matrix":
+            return len(txt) > 120
+        # exercises an optional field that is present, a tagged and an untagged enum
+        return ('"type"' in txt) and ('"index"' in txt or '"lat"' in txt) and ('"tag"' in txt or '"jobTag"' in txt or '"latest"' in txt)
+    return True
+
+
+PROP = dict(
+    proof_modules=["VrpProofs.C11"],
+    model_modules=["VrpModel.C11", "VrpModel.Generated.C11Schema", "VrpProofs.C11.Codec", "VrpProofs.C11.Safe", "VrpProofs.C11.WF"],
+    drv="drv_c11", bin="c11",
+    translators=[translator_T1],
+    compare=c11_compare,
+    nontrivial=c11_nontrivial,
+    rule="rt/fbits/foreign: the document has a present optional field, an internally tagged enum and an untagged enum "
+         "(matrix: non-empty); distinct = SHA-256 of the canonical case input",
+    modelled="serde derive + serde_json for every struct/enum of format/problem/model.rs, format/solution/model.rs and "
+             "Location/CustomLocationType (schema regenerated by translator T1): field order and names (rename, rename_all), "
+             "aliases, skip_serializing_if=Option::is_none, default, Option/Vec, internally tagged / untagged / unit enums, "
+             "integer vs float tokens, i32/i64/usize ranges, unknown fields ignored, missing-field rules",
+    traced="",
+    out_of_model="f64 text printing/parsing (real side only: 1-ulp oracle on arbitrary bit patterns); duplicate keys; "
+                 "struct or enum given as JSON array; non-finite floats; extras.features (geojson) — covered only when absent",
+    assumptions=["documents contain finite floats only (serde_json writes null for NaN/inf)",
+                 "Solution.extras.features (geojson FeatureCollection, defined outside the anchored files) is absent"],
+)
+
+META = dict(
+    text="Proof (Lean 4) + differential correspondence — see evidence.",
+    note=COMMON_NOTE,
+    technique="Lean 4 theorems about a schema-directed codec model regenerated from the Rust serde definitions + differential run",
+)
+
+CLAIMED = True
